@@ -312,9 +312,9 @@ class ModelDrv(Drv):
         ae = int(self.s.ev(AE)[1])
         self.n = ae + SPACE + 514
         self.begin_model()
-        f = self.s.ev('FRE("")')
-        if f[0] != 'ok' or int(f[1]) != SPACE:
-            raise core.MachineryError('calibration failed: FRE("")=%r, wanted %d' % (f[:2], SPACE))
+        f = self.events[-1]
+        if f['kind'] != 'ok' or f.get('fre') != SPACE:
+            raise core.MachineryError('calibration failed: FRE("")=%r, wanted %d' % (f.get('fre'), SPACE))
         self.events = []
 
     def begin_model(self):
@@ -324,6 +324,9 @@ class ModelDrv(Drv):
         self.events.pop()
         self.last = [[] for _ in self.cells]
         self.observe({'op': 'begin', 'kind': 'ok', 'code': 0, 'stmt': 'begin CLEAR ,%d + variables' % self.n})
+        # fixes the constant of the FRE equation for this session, so that the Out-of-string-space clause is judged
+        # from the first statement on (nothing is allocated or collectable yet: the model state is not disturbed)
+        self.do({'op': 'fre'})
 
     def step(self, a, model_err):
         b = conv_action(a)
@@ -343,7 +346,15 @@ def spec_to_code(ctx):
     if not r['ok']:
         raise core.MachineryError('emit run failed: %s' % r['error'])
     trans = graph.parse_transitions(r['out'])
+    # the depth counter is part of the VIEW: the same (state, action) may be printed at several depths
+    seen, uniq = set(), []
     inits = {t['from'] for t in trans if t['d'] == 0}
+    for t in trans:
+        k = (t['from'], json.dumps(t['a'], sort_keys=True))
+        if k not in seen:
+            seen.add(k)
+            uniq.append(t)
+    trans = uniq
     if len(inits) != 1:
         raise core.MachineryError('emit: %d initial states' % len(inits))
     walks, cov, total = graph.covering_walks(trans, inits.pop(), max_len=8, rng=ctx.rng, limit=ctx.pick(1500, None))
